@@ -87,3 +87,19 @@ def _codec_scope(files):
 guards_codec_encode = _codec_scope(('slice-codec/src/encoding.rs', 'slice-codec/src/encode_into.rs', 'slice-codec/src/encoder.rs'))
 guards_codec_decode = _codec_scope(('slice-codec/src/decoding.rs', 'slice-codec/src/decode_from.rs', 'slice-codec/src/decoder.rs'))
 guards_codec_buffer = _codec_scope(('slice-codec/src/buffer/mod.rs', 'slice-codec/src/buffer/slice.rs', 'slice-codec/src/buffer/vec.rs'))
+
+
+def guards_parser_entry(f):
+    return (f.span.file or '') in ('slicec/src/parsers/comments/parser.rs', 'slicec/src/parsers/preprocessor/parser.rs', 'slicec/src/parsers/slice/parser.rs', 'slicec/src/parsers/mod.rs') and not f.generated
+
+
+guards_parser_entry.all_returns = True
+guards_parser_entry.extra_calls = ('parse', 'push_into', 'parse_slice_file', 'parse_doc_comment', 'add_named_element', 'extend')
+
+
+def guards_plugin_parser(f):
+    return (f.span.file or '') == 'slicec/src/slice_options.rs' and 'plugin_parser' in f.path
+
+
+guards_plugin_parser.all_returns = True
+guards_plugin_parser.extra_calls = ('push', 'push_str', 'pop', 'next', 'peek', 'last_mut', 'trim', 'to_owned', 'is_empty', 'insert', 'remove', 'retain', 'ends_with', 'starts_with')
